@@ -86,6 +86,8 @@ from claims_more import MORE
 CLAIMED.update(MORE)
 from claims_more2 import MORE2
 CLAIMED.update(MORE2)
+from claims_more3 import MORE3
+CLAIMED.update(MORE3)
 
 NOT_APPLICABLE = {
     "C01": "the oracle is the Python clvm package; a contract cannot refer to it and a hand transcription would be a model of the oracle",
